@@ -513,6 +513,18 @@ def discharge(vcs, axioms, budget_s=10, nproc=16, pins=None, want=None, retry_fa
     return out
 
 
+def second_opinion(vcs, axioms, budget_s=6, nproc=16, binary='/usr/bin/z3'):
+    """every discharged obligation once more by an independent solver build (z3 4.8.12 from its SMT-LIB text):
+    `unsat` = agrees, `unknown` = no opinion, `sat` = the two builds disagree (checker fault)"""
+    def job(vc):
+        try:
+            return {'status': _cli_check(list(axioms) + list(vc.hyps) + [z3.Not(vc.goal)], budget_s, binary)}
+        except Exception as ex:      # serialisation problems are `no opinion`
+            return {'status': 'unknown', 'error': str(ex)[:100]}
+    res = run_pool([(k, (lambda vc=vc: job(vc))) for k, vc in enumerate(vcs)], nproc=nproc, hard_timeout=budget_s * 2 + 6)
+    return [res[k].get('status', 'unknown') for k in range(len(vcs))]
+
+
 def cover(vcs, axioms, pins, budget_s=5, nproc=16):
     """reachability / non-vacuity: are the hypotheses of these VCs satisfiable (with pinned sizes)?
     sat (also without the array-quantified axioms, which only restrict further ghost functions) > unknown > unsat"""
